@@ -18,7 +18,9 @@ func (d *Data) PushData(p *datastore.PushSession) error {
 
 // NewFilter returns a Filter for use with a push of key-value pairs.
 func (d *Data) NewFilter(fs storage.FilterSpec) (storage.Filter, error) {
-	roiIterator, _, found, err := roi.NewIteratorBySpec(fs, d)
+	// The filter sees the blocks of every version that is copied, so the whole ROI is needed:
+	// the instance's in-memory extents are those of the version written last (or unset).
+	roiIterator, _, found, err := roi.NewIteratorBySpec(fs, nil)
 	if err != nil {
 		dvid.Debugf("No filter found that was parsable: %s\n", fs)
 		return nil, err
